@@ -214,7 +214,7 @@ func Main(prop string) {
 		input := c.P.Prefix()
 		if c.Twin != "" {
 			shadow := 0
-			if c.P.ShadowsSelfName() {
+			if (c.Twin == "notco" && c.P.ShadowsSelfName()) || (c.Twin == "noconcat" && c.P.ConcatOfConcatShape()) {
 				shadow = 1
 			}
 			input = fmt.Sprintf("twin=%s:%d:%d %s", c.Twin, c.TwinOf, shadow, input)
@@ -270,21 +270,21 @@ func Main(prop string) {
 }
 
 type shrunk struct {
-	ID          int    `json:"id"`
-	Source      string `json:"source"`
-	Prefix      string `json:"prefix"`
-	FailAt      int    `json:"failat"`
-	Impl        string `json:"implementation"`
-	Model       string `json:"model"`
-	Size        int    `json:"size"`
-	OrigSize    int    `json:"original_size"`
-	Evals       int    `json:"shrink_evaluations"`
-	Fresh       bool   `json:"reproduced_in_fresh_interpreter"`
-	Detail      string `json:"implementation_detail"`
-	NoTCOSame   bool   `json:"disagrees_also_without_self_tail_call"`
-	NoAliasSame bool   `json:"disagrees_also_without_append_aliasing"`
-	ShadowsSelf bool   `json:"defn_rebinds_and_calls_its_own_name"`
-	Appends     int    `json:"append_uses"`
+	ID           int    `json:"id"`
+	Source       string `json:"source"`
+	Prefix       string `json:"prefix"`
+	FailAt       int    `json:"failat"`
+	Impl         string `json:"implementation"`
+	Model        string `json:"model"`
+	Size         int    `json:"size"`
+	OrigSize     int    `json:"original_size"`
+	Evals        int    `json:"shrink_evaluations"`
+	Fresh        bool   `json:"reproduced_in_fresh_interpreter"`
+	Detail       string `json:"implementation_detail"`
+	NoTCOSame    bool   `json:"disagrees_also_without_self_tail_call"`
+	NoAliasSame  bool   `json:"disagrees_also_without_append_aliasing"`
+	ShadowsSelf  bool   `json:"defn_rebinds_and_calls_its_own_name"`
+	Appends      int    `json:"append_uses"`
 }
 
 func shrinkMode(st Stream, a lib.Args, ids string, modelExe string, budget int64) {
@@ -313,6 +313,9 @@ func shrinkMode(st Stream, a lib.Args, ids string, modelExe string, budget int64
 		style := Style{}
 		if c.Twin == "notco" {
 			style.NoTCO = true
+		}
+		if c.Twin == "noconcat" {
+			style.NoConcatAlias = true
 		}
 		disagree := func(p *Program, stl Style) (bool, string, string) {
 			impl := r.RunSource(p.Source(stl), p.FailAt)
